@@ -100,7 +100,7 @@ PROPS = {
         "trusted_base": E2E_TRUST,
         "modelled": ["path selection in parallel_execute_inner"],
         "assumptions": ["both paths compute the in-order result (C01-C04)"],
-        "explanation": "Theorems path_select, config_independent; every generated block is executed under 7 configurations and 2 entry points and all results are compared with one oracle result.",
+        "explanation": "Theorems path_select, config_independent, replay_append, replay_length, suffix_replay_is_sequential (the committed prefix of a parallel run followed by the sequential replay of the suffix is the sequential replay of the whole block, an error being reported at its GLOBAL index); every generated block is executed under 7 configurations and 2 entry points and all results are compared with one oracle result.",
     },
     "C07": {
         "lean_modules": ["Props.C07"],
